@@ -78,8 +78,12 @@ TRUSTED = [
     "one child per history, so a witness is self-contained (no cache / attribute / module state left by earlier cases)",
 ]
 ASSUMPTIONS = [
-    "leading (delay 0) coefficient of the step-down input is non-zero (ZFilter's constructor guarantees "
-    "it for denominators; a numerator z^-1*(...) is outside the property)",
+    "leading (delay 0) coefficient of the step-down input is non-zero for the clauses of the property (ZFilter's "
+    "constructor guarantees it for denominators); what the code does otherwise - ZeroDivisionError for a numerator "
+    "without a term at power 0, ValueError for negative powers or feedback - is modelled (ALV/Model/C11Call.lean) and "
+    "tied (entry call), and Props.C11.call_parcorError_only_critical shows that none of these is a ParCorError",
+    "float regime: finite binary64 numbers only; ints below 2^53; complex, Stream (time-varying) and Poly-valued "
+    "coefficients are outside the property's quantifier and outside model and generator",
     "coefficients are exact rationals; float rounding inside the real code is only bounded by the "
     "1e-9 tolerance in the cases where Poly's float zero leaks in (flagged per case); floats yielded for an "
     "all-Fraction filter without a zero reflection coefficient are NOT excused (compared exactly)",
@@ -333,7 +337,7 @@ def generate(rng, tier, scale=1):
             cases.append(case_lev(r, max(1, order - 1)))       # order below len(r) - 1
         else:
             cases.append(case_lev(r[:max(2, order)], order + rng.choice([0, 1, 2])))   # zero extension
-    cases.extend(near_critical_cases(rng, (70 if quick else 2500) * scale, scale == 1))
+    cases.extend(near_critical_cases(rng, (70 if quick else 1200) * scale, scale == 1))
     if scale == 1:
         cases.extend(long_cases(rng, quick))
     cases.extend(FL.generate(rng, tier, scale))
